@@ -124,6 +124,12 @@ def collect(prop, tier, seed):
                             corr.append(dict(d, channel=ch, why='implementation and model disagree on channel ' + ch))
             for w in core['w'].get(prop, []):
                 wfind.append(w)
+            if prop == 'C06':
+                # a storage-invariant / object-lifetime / ledger monitor firing on a call that threw IS a basic-guarantee violation
+                for q in ('C02', 'C03', 'C04'):
+                    for w in core['w'].get(q, []):
+                        if threw(w):
+                            wfind.append(dict(w, msg='C06 after a throw: ' + w.get('msg', '')))
             for c in core['crashes']:
                 crashes.append(c)
             for k, e in core.get('build_errors', {}).items():
